@@ -62,6 +62,10 @@ pub fn pre_wake(fd: i32, is_send: bool) {
             if !is_send && fl != -1 && (fl & libc::O_NONBLOCK) == 0 && r >= 0 && (p.revents & (libc::POLLERR | libc::POLLNVAL | libc::POLLHUP)) == 0 {
                 let _g = sim::ShimGuard::new();
                 let msg = format!("self-pipe wake uses write(2) on descriptor {} which is full and not O_NONBLOCK: the signal handler would block until somebody reads (forever if the reader is the interrupted thread)", fd);
+                if sim::pipe_consumer() == Some(sim::cur()) {
+                    // the only thread that drains the pipe is the one stuck in this handler
+                    sim::report("C09", "consumer-stuck-in-handler", &msg, false);
+                }
                 sim::report("C03", "handler-would-block", &msg, false);
                 sim::report("C13", "wake-would-block", &msg, true);
             }
